@@ -21,9 +21,9 @@
 (* time; Run is their composition.  SpecAppend is the transcribed          *)
 (* spec_append with its own laws.                                          *)
 (***************************************************************************)
-EXTENDS Integers, Sequences, FiniteSets
+EXTENDS Integers, Sequences, FiniteSets, TLC
 
-CONSTANT Tree      \* Tree[f] = [plate, mjd, nfib, npix, c0, c1, photo]
+CONSTANT Tree      \* Tree[f] = [plate, mjd, nfib, npix, c0, c1, photo, wide, word]
 
 Files == DOMAIN Tree
 Plates == {Tree[f].plate : f \in Files}
@@ -39,19 +39,26 @@ TreeWellFormed ==
   /\ \A f, g \in Files : (Tree[f].plate = Tree[g].plate) => Tree[f].nfib = Tree[g].nfib
   /\ \A f \in Files : /\ Tree[f].npix \in 1..99 /\ Tree[f].nfib \in 1..999
                       /\ Tree[f].plate \in 1..9999 /\ Tree[f].mjd \in 10000..65535
-                      /\ Tree[f].c0 > 0 /\ Tree[f].c1 > 0 /\ Tree[f].photo = HasPhoto
+                      /\ Tree[f].c0 > 0 /\ Tree[f].c1 > 0 /\ Tree[f].photo = HasPhoto /\ Tree[f].wide \in BOOLEAN
 
 (* two standard instances: the model-checking tree (3 plates, one with two MJDs, pixel   *)
 (* counts 5,7,7,4) and the larger tree on which recorded calls are judged.               *)
-F(plate, mjd, nfib, npix, c0, c1, photo) ==
-  [plate |-> plate, mjd |-> mjd, nfib |-> nfib, npix |-> npix, c0 |-> c0, c1 |-> c1, photo |-> photo]
-StdTree4 == << F(7000, 56500, 5, 4, 4096, 1, FALSE), F(266, 51630, 640, 7, 3840, 2, FALSE),
-               F(3586, 55181, 4, 7, 3968, 3, FALSE), F(266, 51602, 640, 5, 3712, 1, FALSE) >>
-StdTree6 == << F(4000, 55300, 9, 8, 3600, 1, TRUE),  F(266, 51630, 6, 7, 3840, 2, TRUE),
-               F(9999, 57001, 7, 1, 3700, 5, TRUE),  F(3586, 55181, 8, 7, 3968, 3, TRUE),
-               F(266, 51602, 6, 5, 3712, 1, TRUE),   F(1234, 52000, 12, 6, 3650, 4, TRUE),
-               F(7000, 56500, 5, 4, 4096, 1, TRUE),  F(3586, 55200, 8, 3, 3900, 2, TRUE),
-               F(9999, 57000, 7, 8, 3800, 3, TRUE) >>
+(* wide / word make the table columns of the files differ in the storage they NEED: the  *)
+(* string columns of file f hold word \o digits (so their width differs from file to     *)
+(* file, as with files written with "the longest value on this plate"), and the numeric  *)
+(* columns PRIMTARGET / NPOLY / NCHILD / Z hold values that fit int16 / float32 on a     *)
+(* narrow file and need int32 / float64 on a wide one.  StdTree4 in (plate, MJD) order:  *)
+(* file 4 narrow, file 2 narrow, file 3 wide, file 1 wide with the longest word.         *)
+F(plate, mjd, nfib, npix, c0, c1, photo, wide, word) ==
+  [plate |-> plate, mjd |-> mjd, nfib |-> nfib, npix |-> npix, c0 |-> c0, c1 |-> c1, photo |-> photo,
+   wide |-> wide, word |-> word]
+StdTree4 == << F(7000, 56500, 5, 4, 4096, 1, FALSE, TRUE, "SPECTROPHOTO_STD_"), F(266, 51630, 640, 7, 3840, 2, FALSE, FALSE, "QSO"),
+               F(3586, 55181, 4, 7, 3968, 3, FALSE, TRUE, "GALAXY_"), F(266, 51602, 640, 5, 3712, 1, FALSE, FALSE, "") >>
+StdTree6 == << F(4000, 55300, 9, 8, 3600, 1, TRUE, TRUE, "GALAXY_"),  F(266, 51630, 6, 7, 3840, 2, TRUE, TRUE, "SKY"),
+               F(9999, 57001, 7, 1, 3700, 5, TRUE, FALSE, "REDDEN_STD_"),  F(3586, 55181, 8, 7, 3968, 3, TRUE, FALSE, "Q"),
+               F(266, 51602, 6, 5, 3712, 1, TRUE, FALSE, ""),   F(1234, 52000, 12, 6, 3650, 4, TRUE, TRUE, "SPECTROPHOTO_STD_"),
+               F(7000, 56500, 5, 4, 4096, 1, TRUE, FALSE, "STAR_"),  F(3586, 55200, 8, 3, 3900, 2, TRUE, TRUE, "STARFORMING_BROADLINE_"),
+               F(9999, 57000, 7, 8, 3800, 3, TRUE, TRUE, "AGN") >>
 
 (* ------------------------- synthetic file contents ------------------------- *)
 Code(f, fib, h, x) == f * 1000000 + fib * 1000 + h * 100 + x
@@ -67,15 +74,25 @@ Cell(f, fib, p) == Code(f, fib, 0, p)                    \* HDU-independent iden
 AtHdu(cell, h) == IF cell = 0 THEN 0 ELSE cell + 100 * h
 Loglam(f, p) == Tree[f].c0 + Tree[f].c1 * p              \* units of 2^-10
 
+StrW(g, f, fib, h, x) == Tree[g].word \o ToString(Code(f, fib, h, x))   \* string cell: word of file g, identity of the cell
+Str(f, fib, h, x) == StrW(f, f, fib, h, x)                                \* file-dependent width
+Small(f, fib, h, x) == IF Tree[f].wide THEN Code(f, fib, h, x) ELSE fib * 10 + h   \* needs int32 only on a wide file
+Real(f, fib, h, x) == IF Tree[f].wide THEN 16777217 + 2 * Code(f, fib, h, x)       \* odd and > 2^24: needs float64
+                      ELSE Code(f, fib, h, x)
 PlugRow(f, fib) == [FIBERID |-> fib, PLATE |-> Tree[f].plate, MJD |-> Tree[f].mjd,
-                    CODE |-> Code(f, fib, PlugNo, 0), MAG |-> [e \in 1..5 |-> Code(f, fib, PlugNo, e)]]
+                    CODE |-> Code(f, fib, PlugNo, 0), MAG |-> [e \in 1..5 |-> Code(f, fib, PlugNo, e)],
+                    OBJTYPE |-> Str(f, fib, PlugNo, 6), PRIMTARGET |-> Small(f, fib, PlugNo, 7)]
 ZansRow(f, fib) == [PLATE |-> Tree[f].plate, MJD |-> Tree[f].mjd, FIBERID |-> fib,
-                    Z |-> Code(f, fib, ZansNo, 0), THETA |-> [e \in 1..3 |-> Code(f, fib, ZansNo, e)]]
-TsobjRow(f, fib) == [OBJID |-> Code(f, fib, TsobjNo, 0), FLUX |-> [e \in 1..2 |-> Code(f, fib, TsobjNo, e)]]
+                    Z |-> Real(f, fib, ZansNo, 0), THETA |-> [e \in 1..3 |-> Code(f, fib, ZansNo, e)],
+                    CLASS |-> Str(f, fib, ZansNo, 4), SUBCLASS |-> StrW(((f + fib) % Len(Tree)) + 1, f, fib, ZansNo, 5),
+                    NPOLY |-> Small(f, fib, ZansNo, 6)]
+TsobjRow(f, fib) == [OBJID |-> Code(f, fib, TsobjNo, 0), FLUX |-> [e \in 1..2 |-> Real(f, fib, TsobjNo, e)],
+                     TYPENAME |-> Str(f, fib, TsobjNo, 3), NCHILD |-> Small(f, fib, TsobjNo, 4)]
 
 (* a table as readspec returns it: one sequence per column; rows = sequence of <<file, fibre>> *)
 Columns(RowOp(_, _), rows) ==
-  [c \in DOMAIN RowOp(1, 1) |-> [i \in DOMAIN rows |-> RowOp(rows[i][1], rows[i][2])[c]]]
+  LET recs == [i \in DOMAIN rows |-> RowOp(rows[i][1], rows[i][2])] IN
+  [c \in DOMAIN RowOp(1, 1) |-> [i \in DOMAIN rows |-> recs[i][c]]]
 
 AllRows(f) == [k \in 1..Tree[f].nfib |-> <<f, k>>]
 FileContents(f) ==
@@ -92,6 +109,11 @@ FileContents(f) ==
 (* run2d=, run1d=, path=, or the bare documented environment): the specified result does  *)
 (* not depend on it.                                                                       *)
 Locs == {"env", "topdir", "run2d", "run1d", "path", "bare"}
+(* The call record holds VALUES only.  How an array argument is laid out in memory (mem:   *)
+(* plain, read-only, a strided / Fortran-ordered view, byte-swapped, a 0-d array for a     *)
+(* scalar) is not an input of Requests / Specified / SpecAppend: the outcome depends on    *)
+(* the values only (law MemIndependent; the harness rotates the layouts over the cases).   *)
+Mems == {"plain", "readonly", "strided", "swapped", "zerod"}
 Pick(s, i) == IF Len(s) = 1 THEN s[1] ELSE s[i]
 RECURSIVE Concat(_)
 Concat(ss) == IF ss = <<>> THEN <<>> ELSE Head(ss) \o Concat(Tail(ss))
@@ -111,6 +133,7 @@ Requests(c) ==
           [fib \in 1..Tree[FileOf(c.p[k], MjdAt(c, k))].nfib |-> [plate |-> c.p[k], mjd |-> MjdAt(c, k), fib |-> fib]]])
   ELSE [i \in 1..Max2(Len(c.p), Len(c.f)) |-> [plate |-> Pick(c.p, i), mjd |-> MjdAt(c, i), fib |-> Pick(c.f, i)]]
 
+MemIndependent(c) == \A mm \in Mems : Requests([c EXCEPT !.mem = mm]) = Requests(c)
 FileAt(req, i) == FileOf(req[i].plate, req[i].mjd)
 RowsOf(req) == [i \in DOMAIN req |-> <<FileAt(req, i), req[i].fib>>]
 RequestOK(req) == \A i \in DOMAIN req :
